@@ -70,7 +70,7 @@ def main(argv=None):
     import aw_datastore.storages.sqlite as sq
     from aw_core.models import Event
 
-    ck.run_witnesses(["w08", "w21"])
+    ck.run_witnesses(["w08", "w21", "w22"])
     ck.prove(extra_targets=["Bridge/BridgeCommit.v", "Model/CommitDriver.v", "Props/C18api.v", "Model/CommitApiDriver.v"],
              gen_kernels=["commit", "conditional_commit", "sqlite_scripts"])
     have_driver = ck.driver()
